@@ -18,8 +18,7 @@ Theorem macro_model_end_to_end : forall d,
         eval c (mk_env (d_W d) raw 0 (VBool false)) (gen_raw_value (storage (d_W d)) (d_W d)) = Ok (VInt (base_ty (d_W d)) raw)).
 Proof.
   intros d Ha HF. rewrite accept_decl_iff_valid in Ha.
-  assert (Hv := Ha). unfold valid_decl in Hv. apply andb_prop in Hv. destruct Hv as [Hv _].
-  apply andb_prop in Hv. destruct Hv as [HW Hvf]. rewrite forallb_forall in Hvf. rewrite Forall_forall in HF.
+  destruct (valid_decl_parts d Ha) as (HW & Hvf & _ & _). rewrite forallb_forall in Hvf. rewrite Forall_forall in HF.
   split; [|split].
   - intros c f i raw Hin Hi Hraw. destruct (HF f Hin) as [Hn Hc].
     now apply model_getter_correct; try apply Hvf.
